@@ -86,7 +86,7 @@ def parse(logs):
     cur = None
     for path in logs:
         for line in open(path):
-            m = re.match(r'== (C\d+) patch: (\d+) changed lines in (\d+) file', line)
+            m = re.match(r'== (C\d+[a-z]?) patch: (\d+) changed lines in (\d+) file', line)
             if m:
                 cur = res.setdefault(m.group(1), {'changed_lines': int(m.group(2)), 'files': int(m.group(3)), 'checks': {}})
                 cur['checks'] = {}
@@ -94,7 +94,7 @@ def parse(logs):
             if cur is None: continue
             m = re.match(r'demo (WITH|WITHOUT) change: exit (\d+)', line)
             if m: cur['demo_' + m.group(1).lower()] = int(m.group(2))
-            m = re.match(r'check (C\d+) vs seeded (C\d+): rc=(\d+) .*violations=(\d+)', line)
+            m = re.match(r'check (C\d+) vs seeded (C\d+[a-z]?): rc=(\d+) .*violations=(\d+)', line)
             if m: cur['checks'][m.group(1)] = {'rc': int(m.group(3)), 'violations': int(m.group(4))}
             if 'PATCH DOES NOT APPLY' in line: cur['patch_applies'] = False
     return res
@@ -108,7 +108,7 @@ def main():
         what, needs = NEEDS.get(sid, ('', ''))
         caught = [c for c, v in r['checks'].items() if v['rc'] == 1]
         missed = [c for c, v in r['checks'].items() if v['rc'] != 1]
-        meta = {'property': sid, 'change': what, 'needs_to_manifest': needs,
+        meta = {'property': sid[:3], 'change': what, 'needs_to_manifest': needs,
                 'patch_changed_lines': r['changed_lines'],
                 'confirmed': {'demo_exit_with_change': r.get('demo_with'), 'demo_exit_without_change': r.get('demo_without'),
                               'repository_tests': 'full pinned suite run by the seeding agent with the change applied: 291 passed + the 3 known pre-existing '
